@@ -425,6 +425,46 @@ func runC20(c *Ctx) {
 		c.Check(okHead, "C20.head", fnName(Next), "returns q[0][0].v read before nextValue", P.Pos(Next.Pos()), "")
 		c.Check(nEmpty >= 1, "C20.head", fnName(Next), "empty queue / error returns a nil value", P.Pos(Next.Pos()), fmt.Sprintf("%d nil-value returns", nEmpty))
 	}
+	// ---- pop before re-add
+	c.Rule("C20.pop-first", "UpdateQueue.Next removes the returned entry from the head of the queue (a store to u.q or to u.q[0]) before it re-inserts the regenerated value with addValue, on every path (addValue's placement search must not see the entry being returned)")
+	{
+		fQ := P.Field("testing/fake/queue", "UpdateQueue", "q")
+		if fQ == nil {
+			c.Unresolved("C20.pop-first", "queue.UpdateQueue.q")
+		} else {
+			isAdd := lbl("call:" + fnName(addValue))
+			isPop := func(ev *Ev) bool {
+				if !strings.HasPrefix(ev.Label, "store:") {
+					return false
+				}
+				if ev.Field == fQ {
+					return true
+				}
+				// u.q[0] = ...
+				if st, ok := ev.In.(*ssa.Store); ok {
+					if ia, ok := st.Addr.(*ssa.IndexAddr); ok && loadOfField(ia.X, fQ) {
+						return true
+					}
+				}
+				return false
+			}
+			e := &PPA{Watch: func(ev *Ev) bool { return isAdd(ev) || isPop(ev) }}
+			e.Run(Next)
+			c.Paths += len(e.Paths)
+			n := 0
+			for i := range e.Paths {
+				p := &e.Paths[i]
+				ai := p.Index(0, isAdd)
+				if ai < 0 {
+					continue
+				}
+				n++
+				pi := p.Index(0, isPop)
+				c.Check(pi >= 0 && pi < ai, "C20.pop-first", fnName(Next), "head entry removed before the value is re-added", P.Pos(Next.Pos()), "path: "+p.String())
+			}
+			c.Floor("C20.pop-first/paths", n, 1)
+		}
+	}
 	// ---- sync
 	{
 		c.Analysed(fnName(reset))
